@@ -357,6 +357,11 @@ def variant_checks(ctx, cases, prop):
             ctx.count("variant:relocation")
             if "err" not in ron and "err" not in roff:
                 bad = [i for i in range(n) if ron["production"][i] < roff["production"][i] - 1e-9 * max(1e-3, abs(roff["production"][i]))]
+                badg = [i for i in range(n) if ron["ghcrops"][i] < roff["ghcrops"][i] - 1e-9 * max(1e-3, abs(roff["ghcrops"][i]))]
+                if badg:
+                    i = badg[0]
+                    ctx.violation("relocation-lowers-greenhouse", "month %d: greenhouse output with relocation %r < without %r" % (i, ron["ghcrops"][i], roff["ghcrops"][i]),
+                                  dict(case0, month=i))
                 if bad:
                     i = bad[0]
                     quant = ron["production"][i] == math.floor(ron["production"][i])
@@ -377,6 +382,12 @@ def variant_checks(ctx, cases, prop):
                 if bad:
                     i = bad[0]
                     ctx.violation("expansion-lowers", "month %d: with expanded area %r < without %r" % (i, rexp["production"][i], rno["production"][i]),
+                                  dict(case0, month=i, expanded=full_case(cexp)))
+                # ... nor the greenhouse crops grown on part of that cropland
+                badg = [i for i in range(n) if rexp["ghcrops"][i] < rno["ghcrops"][i] - 1e-9 * max(1e-3, abs(rno["ghcrops"][i]))]
+                if badg:
+                    i = badg[0]
+                    ctx.violation("expansion-lowers-greenhouse", "month %d: greenhouse output with expanded cropland %r < without %r" % (i, rexp["ghcrops"][i], rno["ghcrops"][i]),
                                   dict(case0, month=i, expanded=full_case(cexp)))
 
 
@@ -594,7 +605,7 @@ def check_other_series(ctx, cases):
             m, s = rd.float(), rd.float()
             if isinstance(stored, dict) or not tol_close([stored], [m]):
                 ctx.disagree("stored-food", case, stored, m)
-            else:
+            if not isinstance(stored, dict):   # the documented function is the yardstick whether or not the model still mirrors the code
                 series_clauses(ctx, "stored-food", [stored], n, [s], case, expect_len=1)
         # ---- homogeneity on the real classes (one re-run with every baseline scaled by k)
         k = float(c.get("_k") or rng.choice([2.0, 0.5, 1e-3, 3.7]))
